@@ -214,7 +214,9 @@ class Impl(object):
         if op == 9:
             return self.call(lambda: _b(t.remove_prefix_from_webentity(a[0], a[1] if a[1] else False)))
         if op == 10:
-            return self.call(lambda: _b(t.move_prefix_to_webentity(a[0], a[1], a[2] if a[2] else False)))
+            # the explicit alias is used for every other prefix length (same semantics expected)
+            mv = t.move_prefix_to_webentity_from_webentity if len(a[0]) % 2 else t.move_prefix_to_webentity
+            return self.call(lambda: _b(mv(a[0], a[1], a[2] if a[2] else False)))
         if op == 11:
             return self.call(lambda: self.report(t.add_webentity_creation_rule(a[0], rule_regex(a[1]))))
         if op == 12:
@@ -274,6 +276,8 @@ class Impl(object):
                 s = f(a[1], list(a[2]))
                 if g(a[1], list(a[2])) != len(s):
                     return Crash("degree != len(set)")
+                if t.get_webentity_degree(a[1], list(a[2])) != t.get_webentity_indegree(a[1], list(a[2])) + t.get_webentity_outdegree(a[1], list(a[2])):
+                    return Crash("get_webentity_degree != indegree + outdegree")
                 return [0 if w is None else w for w in s]
             return self.call(go)
         if op == 33:
@@ -284,8 +288,14 @@ class Impl(object):
             return self.call(go)
         if op == 34:
             def go():
-                f = t.get_webentities_links_slow if a[2] else t.get_webentities_links
-                g = f(out=bool(a[0]), include_auto=bool(a[1]))
+                if a[2]:
+                    g = t.get_webentities_links_slow(out=bool(a[0]), include_auto=bool(a[1]))
+                else:
+                    g = t.get_webentities_links(out=bool(a[0]), include_auto=bool(a[1]))
+                    # the directional aliases must give the same answer
+                    alias = (t.get_webentities_outlinks if a[0] else t.get_webentities_inlinks)(include_auto=bool(a[1]))
+                    if dict((k, dict(v)) for k, v in alias.items()) != dict((k, dict(v)) for k, v in g.items()):
+                        return Crash("get_webentities_%slinks differs from get_webentities_links" % ("out" if a[0] else "in"))
                 res = []
                 for src, cnt in g.items():
                     for k, v in cnt.items():
